@@ -102,6 +102,12 @@ fn build_on(tree: &mut MerkleTree, leaves: &[Vec<u8>]) -> Built {
 }
 
 fn replay_of(v: Version, history: &[Vec<Vec<u8>>], what: &str) -> serde_json::Value {
+    // (a broken tree can produce hundreds of thousands of violations, each with a history of up
+    // to 255 leaves: only the first few carry their full replay data)
+    static CALLS: std::sync::atomic::AtomicU64 = std::sync::atomic::AtomicU64::new(0);
+    if CALLS.fetch_add(1, std::sync::atomic::Ordering::Relaxed) >= 200 {
+        return json!({"kind": "merkle", "version": vname(v), "what": what, "history": "omitted (more than 200 violations in this shard)"});
+    }
     json!({"kind": "merkle", "version": vname(v), "what": what,
            "history": history.iter().map(|b| b.iter().map(|l| hex(l)).collect::<Vec<_>>()).collect::<Vec<_>>()})
 }
